@@ -43,7 +43,7 @@ InitSt(rows, c) == [cfg |-> c, rows |-> rows, orig |-> rows, pos |-> 0, state |-
                     bufsize |-> IF GrowthOf(c) > 0 THEN Min(BufMaxOf(c), GrowthOf(c)) ELSE BufMaxOf(c),
                     maxbuf |-> BufMaxOf(c), growth |-> GrowthOf(c),
                     yp |-> 0, b |-> [uniq |-> FALSE, ustr |-> FALSE, seen |-> {}, proj |-> <<1, 2>>],
-                    v |-> NoView, vm |-> NoMemo, frozen |-> FALSE, broken |-> FALSE]
+                    v |-> NoView, vm |-> NoMemo, it |-> "none", frozen |-> FALSE, broken |-> FALSE]
 Remaining(s) == Len(s.rows) - s.pos
 \* ---------------------------------------------------------------- return values
 RV(k, rows, err) == [k |-> k, rows |-> rows, err |-> err]
@@ -140,6 +140,16 @@ DoFetchOne(s, h) == LET s0 == Memo(s, h, "one") IN FetchOneU(s0, h, EffU(s, h, "
 Stop(r) == IF r.ret.k = "none" THEN [r EXCEPT !.ret = RErr("StopIteration")] ELSE r
 DoNext(s, h) == Stop(DoFetchOne(s, h))
 DoIterStep(s, h) == LET s0 == Memo(s, h, "it") IN Stop(FetchOneU(s0, h, EffU(s, h, "it"), TRUE))
+\* An iterator object held by the program across other calls (`it = iter(r)` ... `next(it)`):  it \in none | <h>0 (created, generator
+\* not started) | <h>1 (started) | dead (it raised once: a finished generator only raises StopIteration).  Documented behaviour: the same as
+\* a fresh iteration step - rows of the list model, StopIteration on exhaustion, ResourceClosedError once the result is closed.
+ItHandle(s) == IF s.it \in {"b0", "b1"} THEN "b" ELSE "v"
+DoIter(s, h) == Res([Memo(s, h, "it") EXCEPT !.it = h \o "0"], ROk, <<>>)
+DoItNext(s) == IF s.it = "dead" THEN Res(s, RErr("StopIteration"), <<>>)
+               ELSE LET r == DoIterStep(s, ItHandle(s)) IN [r EXCEPT !.st.it = IF r.ret.k = "err" THEN "dead" ELSE ItHandle(s) \o "1"]
+\* the program drops its iterator when it re-generates the object it came from
+DropIt(name, h, s) == IF name \in {"Freeze", "Merge", "YieldPer"} \/ (name \in {"Unique", "Columns"} /\ s.it \in {h \o "0", h \o "1"})
+                      THEN [s EXCEPT !.it = "none"] ELSE s
 RowsRes(s, h, idx) == Res(s, RV("rows", Vals(s, h, idx), ""), idx)
 RECURSIVE TopUp(_, _, _, _, _)
 TopUp(s, h, n, collect, fuel) ==
@@ -215,7 +225,7 @@ DoMerge(s) == Res([s EXCEPT !.rows = SubSeq(s.rows, s.pos + 1, Len(s.rows)) \o s
                             !.buf = 0, !.bufsize = 0, !.maxbuf = 0, !.growth = 0, !.v = [NoView EXCEPT !.proj = s.b.proj], !.vm = NoMemo], ROk, <<>>)
 \* ---------------------------------------------------------------- actions
 On(a, h) == (IF h = "b" THEN a \in Ops ELSE a \in ViewOps) /\ ~st.broken
-Step(name, h, arg, res) == st' = res.st /\ last' = [a |-> name, h |-> h, arg |-> arg, ret |-> res.ret, idx |-> res.idx]
+Step(name, h, arg, res) == st' = DropIt(name, h, res.st) /\ last' = [a |-> name, h |-> h, arg |-> arg, ret |-> res.ret, idx |-> res.idx]
 Handles == IF st.v.kind = "none" THEN {"b"} ELSE {"b", "v"}
 \* sqlite3's own cursor.fetchmany(0) returns every row (driver semantics): excluded where the call reaches the driver
 ReachesDriver0(h, n, which) == n = 0 /\ st.fam = "default" /\ st.state = "attached" /\ ~EffU(st, h, which)
@@ -226,6 +236,7 @@ Next ==
        \/ On("FetchOne", h) /\ (h = "b" \/ st.v.kind = "mappings") /\ Step("FetchOne", h, 0, DoFetchOne(st, h))
        \/ On("Next", h) /\ Step("Next", h, 0, DoNext(st, h))
        \/ On("IterStep", h) /\ Step("IterStep", h, 0, DoIterStep(st, h))
+       \/ On("Iter", h) /\ Step("Iter", h, 0, DoIter(st, h))
        \/ On("FetchMany", h) /\ \E n \in Sizes : ~ReachesDriver0(h, n, "many") /\ Step("FetchMany", h, n, DoFetchMany(st, h, n))
        \/ On("Partitions", h) /\ \E n \in PSizes : ~ReachesDriver0(h, n, "many") /\ Step("Partitions", h, n, DoPartition(st, h, n))
        \/ On("All", h) /\ Step("All", h, 0, DoAll(st, h))
@@ -237,6 +248,7 @@ Next ==
        \/ On("Close", h) /\ Step("Close", h, 0, DoClose(st))
        \/ On("YieldPer", h) /\ st.yp = 0 /\ (h = "v" \/ st.v.kind = "none") /\ (st.fam = "chunk" => st.pos = 0)
             /\ \E n \in {1, 2} : Step("YieldPer", h, n, DoYieldPer(st, n))
+  \/ On("ItNext", "b") /\ st.it # "none" /\ Step("ItNext", ItHandle(st), 0, DoItNext(st))
   \/ On("Scalar", "b") /\ Step("Scalar", "b", 0, DoFirst(st, "b", TRUE))
   \/ On("ScalarOne", "b") /\ Step("ScalarOne", "b", 0, DoOne(st, "b", FALSE, TRUE))
   \/ On("ScalarOneOrNone", "b") /\ Step("ScalarOneOrNone", "b", 0, DoOne(st, "b", TRUE, TRUE))
@@ -256,7 +268,7 @@ Obs(s) == [closed |-> s.state = "hard", drain |-> Drain(s)]
 Emit == PrintT(ToJson([from |-> st, act |-> last', to |-> st', obs |-> Obs(st')]))
 InitEmit == Init /\ PrintT(ToJson([init |-> st]))
 \* ================================================================ the abstract property (list with a cursor)
-Fetching == {"FetchOne", "Next", "IterStep", "FetchMany", "Partitions", "All"}
+Fetching == {"FetchOne", "Next", "IterStep", "ItNext", "FetchMany", "Partitions", "All"}
 OnlyOne == {"First", "One", "OneOrNone", "Scalar", "ScalarOne", "ScalarOneOrNone"}
 Reshaping == {"Freeze", "Merge"}
 IsErr(r) == r.k = "err" /\ r.err # "StopIteration"
@@ -275,15 +287,16 @@ ErrorsDeliverNothing == [][last'.ret.k \in {"err", "none", "ok"} => last'.idx = 
 ClosedIsFinal == [][(st.state = "hard" /\ last'.a \notin Reshaping) => st'.state = "hard"]_vars
 NothingAfterHard == [][(st.state = "hard" /\ last'.a \in (Fetching \cup OnlyOne)) =>
                          (last'.idx = <<>> /\ (last'.ret = RErr(RCE) \/ (last'.ret.k = "rows" /\ last'.ret.rows = <<>>)
-                                                \/ (last'.a = "Partitions" /\ last'.arg = 0 /\ last'.ret = RErr("StopIteration"))))]_vars
+                                                \/ (last'.a = "Partitions" /\ last'.arg = 0 /\ last'.ret = RErr("StopIteration"))
+                                                \/ (last'.a = "ItNext" /\ st.it = "dead" /\ last'.ret = RErr("StopIteration"))))]_vars
 \* the visible rows of a handle, declaratively: all remaining raw rows, minus (under unique) values already seen / repeated
 Rem(s) == IF s.state = "attached" THEN (s.pos + 1)..Len(s.rows) ELSE {}
 Vis(s, h, u) == {i \in Rem(s) : ~u \/ (Val(s, h, i) \notin HSeen(s, h) /\ \A j \in Rem(s) : j < i => Val(s, h, j) # Val(s, h, i))}
 FirstN(S, n) == {i \in S : Cardinality({j \in S : j < i}) < n}
 ListModel == [][(last'.a \in Fetching /\ ~IsErr(last'.ret)) =>
       LET h == last'.h  d == Range(last'.idx)
-          vis == Vis(st, h, EffU(st, h, IF last'.a \in {"FetchMany", "Partitions"} THEN "many" ELSE IF last'.a = "IterStep" THEN "it" ELSE "one"))
-      IN CASE last'.a \in {"FetchOne", "Next", "IterStep"} -> d = FirstN(vis, 1)
+          vis == Vis(st, h, EffU(st, h, IF last'.a \in {"FetchMany", "Partitions"} THEN "many" ELSE IF last'.a \in {"IterStep", "ItNext"} THEN "it" ELSE "one"))
+      IN CASE last'.a \in {"FetchOne", "Next", "IterStep", "ItNext"} -> d = FirstN(vis, 1)
            [] last'.a = "All" -> d = Vis(st, h, HU(st, h))
            [] OTHER -> IF last'.arg # SzNone THEN d = FirstN(vis, last'.arg)
                        ELSE IF st.yp > 0 THEN d = FirstN(vis, st.yp)
@@ -311,7 +324,7 @@ OnlyOneSemantics == [][last'.a \in OnlyOne =>
 \* all()/fetchall() exhausts and (soft-)closes; close() hard-closes; generative calls move nothing
 AllCloses == [][(last'.a = "All" /\ ~IsErr(last'.ret)) => (st'.pos = Len(st.rows) /\ st'.state # "attached")]_vars
 CloseCloses == [][last'.a = "Close" => st'.state = "hard"]_vars
-GenerativeMovesNothing == [][last'.a \in {"Unique", "Scalars", "Mappings", "Tuples", "Columns", "YieldPer"} =>
+GenerativeMovesNothing == [][last'.a \in {"Unique", "Scalars", "Mappings", "Tuples", "Columns", "YieldPer", "Iter"} =>
                                (st'.pos = st.pos /\ st'.state = st.state /\ st'.rows = st.rows /\ last'.ret = ROk)]_vars
 \* freeze()/merge() keep exactly the rows the list model says remain
 FreezeKeepsVisible == [][(last'.a = "Freeze" /\ last'.ret.k = "rows") =>
